@@ -19,7 +19,7 @@ EXPLANATION = (
     "primitive towards the peer is reachable in the call graph from any read-side or lifecycle entry point (expect "
     "family, read*, close, isalive, wait, terminate, kill, echo/winsize/isatty, __str__, __enter__/__exit__, "
     "constructors); (D4) sendcontrol/sendeof/sendintr make one delegated ptyprocess call and log the byte it "
-    "returned; (D5) text given to a bytes-mode object is encoded with the constant 'utf-8' and bytes pass unchanged. "
+    "returned; (D5) text given to a bytes-mode object is encoded with the constant 'utf-8' and bytes pass unchanged; (D6) socket: the temporary read timeout is replaced again in a finally, so it cannot stay in force for a later sendall; writelines consumes its (possibly one-shot) iterable exactly once. "
     "NOT decided: tty line discipline, partial writes by the OS, what the peer really receives.")
 TRUSTED = ["os.write / socket.sendall / file.write send the bytes object they are given", "ptyprocess sendcontrol/sendeof/sendintr (parsed for who-may-call only)", "sa/ engine"]
 ASSUMPTIONS = ["a new public send-like method is not an alarm; a write reachable from the read/lifecycle side is"]
